@@ -1,8 +1,8 @@
 SPECIFICATION TSpec
 CONSTANTS
   ClassLevelPropagate = FALSE
-  ParamResolve = FALSE
-  InitRestated = FALSE
+  ParamResolve = TRUE
+  InitRestated = TRUE
   OriginFromSuper = FALSE
   AllowModifyBusy = FALSE
 CHECK_DEADLOCK FALSE
